@@ -1,12 +1,14 @@
 package enga
 
 import (
+	"os"
 	"fmt"
 	"math/rand/v2"
 	"regexp"
 	"sort"
 	"strconv"
 	"strings"
+	"sync"
 
 	"github.com/gkampitakis/go-snaps/snaps"
 
@@ -136,6 +138,12 @@ func msEqual(a, b map[string]int) bool {
 // returns the first refuted clause.
 func judgePair(a, b string, noColor bool) (kind, detail string) {
 	snaps.VerifSetNoColor(noColor)
+	return judgePairCur(a, b, noColor)
+}
+
+// judgePairCur judges a pair under the colour mode that is already set (callable from
+// several goroutines at once).
+func judgePairCur(a, b string, noColor bool) (kind, detail string) {
 	rep := snaps.VerifPrettyDiff(a, b)
 	if (rep == "") != (a == b) {
 		return "empty-iff-identical", fmt.Sprintf("report empty=%v but texts identical=%v", rep == "", a == b)
@@ -336,7 +344,12 @@ func midText(r *rand.Rand) string {
 }
 
 func checkC13(c *vkit.Ctx) {
-	c.P.Rule = "part (i): ALL ordered pairs of line sequences over {a,b,c} of length 0..5 (364^2 = 132496 pairs), NO_COLOR, complete; part (ii): seeded random pairs - near pairs (one hostile edit), independent texts, single-line, >10 lines (range headers), 200-600 lines with heavily repeated lines (popular-line heuristic), 1000-12000 lines around round sizes with few edits incl. a line duplicated next to itself or one line of a run dropped, lines starting with `- `/`+ `/`@@`, colours on and off; every pair goes through the real prettyDiff and the real opcode generator, an independent parser/checker decides all clauses; non-trivial = pair with different texts; distinct by hash(stored, received, colour)"
+	if os.Getenv("VERIF_RACE_BUILD") == "1" {
+		// the -race workers run the concurrent batches only
+		c13Concurrent(c)
+		return
+	}
+	c.P.Rule = "part (i): ALL ordered pairs of line sequences over {a,b,c} of length 0..5 (364^2 = 132496 pairs), NO_COLOR, complete; part (ii): seeded random pairs - near pairs (one hostile edit), independent texts, single-line, >10 lines (range headers), 200-600 lines with heavily repeated lines (popular-line heuristic), 1000-12000 lines around round sizes with few edits incl. a line duplicated next to itself or one line of a run dropped, lines starting with `- `/`+ `/`@@`, colours on and off; part (iii): batches of 4-11 comparisons running at once, all with the same received text and different stored texts; every pair goes through the real prettyDiff and the real opcode generator, an independent parser/checker decides all clauses; non-trivial = pair with different texts; distinct by hash(stored, received, colour)"
 	all := seqs()
 	total := len(all) * len(all)
 	done := 0
@@ -381,6 +394,63 @@ func checkC13(c *vkit.Ctx) {
 		_ = shape
 		noColor := r.IntN(3) != 0
 		judgeAndCount(c, r, j, a, b, shape, noColor)
+	}
+	c13Concurrent(c)
+}
+
+// c13Concurrent: several failing comparisons at once, all with the SAME received text and
+// different stored texts (parallel table cases that produce one output against different
+// stale snapshots); each report is judged against its own pair.
+func c13Concurrent(c *vkit.Ctx) {
+	n := c.N(300, 6000)
+	for j := 0; j < n; j++ {
+		i := 50000000 + j
+		if !c.Mine(i) {
+			continue
+		}
+		r := c.Rand("conc", j)
+		var b string
+		if r.IntN(2) == 0 {
+			b = bigTextN(r, 300+r.IntN(1500))
+		} else {
+			b = midText(r)
+		}
+		k := 4 + r.IntN(8)
+		as := make([]string, k)
+		for x := range as {
+			as[x] = editBig(r, b)
+		}
+		noColor := r.IntN(3) != 0
+		snaps.VerifSetNoColor(noColor)
+		kinds, details := make([]string, k), make([]string, k)
+		var wg sync.WaitGroup
+		for x := 0; x < k; x++ {
+			wg.Add(1)
+			go func(x int) {
+				defer wg.Done()
+				defer func() {
+					if rec := recover(); rec != nil {
+						kinds[x], details[x] = "panic", fmt.Sprint(rec)
+					}
+				}()
+				for rep := 0; rep < 3; rep++ {
+					if kd, dt := judgePairCur(as[x], b, noColor); kd != "" {
+						kinds[x], details[x] = kd, dt
+						return
+					}
+				}
+			}(x)
+		}
+		wg.Wait()
+		for x := 0; x < k; x++ {
+			if kinds[x] != "" {
+				c.Violate(kinds[x], "", fmt.Sprintf("%d comparisons at once with the same received text, nocolor=%v: %s", k, noColor, details[x]), map[string]any{"stored": vkit.Clip(as[x], 3000), "received": vkit.Clip(b, 3000), "no_color": noColor, "shape": "concurrent-same-received-text"})
+				break
+			}
+		}
+		c.Count("concurrent_batches_with_the_same_received_text", 1)
+		c.Count("concurrent_comparisons", k*3)
+		c.Case(vkit.Hash("conc", b, k, noColor), true)
 	}
 }
 
